@@ -17,6 +17,7 @@ package main
 import (
 	"fmt"
 	"net"
+	"sort"
 	"strings"
 	"sync"
 	"time"
@@ -30,6 +31,8 @@ import (
 
 type peer struct {
 	n      int
+	will   *packet.Message
+	clean  bool
 	id     string
 	conn   transport.Conn
 	acks   chan packet.Generic
@@ -95,15 +98,20 @@ func (w *boxWorld) fail(what string) {
 	w.failed = true
 }
 
-func (w *boxWorld) connect(n int, id string, clean bool) {
+func (w *boxWorld) connect(n int, id string, clean bool, will *packet.Message) {
 	a, b := net.Pipe()
 	w.eng.Handle(transport.NewNetConn(a))
-	p := &peer{n: n, id: id, conn: transport.NewNetConn(b), acks: make(chan packet.Generic, 64), eof: make(chan struct{}), nextID: 1}
+	p := &peer{n: n, id: id, clean: clean || id == "", conn: transport.NewNetConn(b), acks: make(chan packet.Generic, 64), eof: make(chan struct{}), nextID: 1}
 	go p.reader()
 	cp := packet.NewConnect()
 	cp.ClientID = id
 	cp.CleanSession = clean
 	cp.KeepAlive = 0
+	if will != nil {
+		wc := *will
+		cp.Will = &wc
+		p.will = will
+	}
 	if err := p.conn.Send(cp, false); err != nil {
 		w.fail("connect send")
 		return
@@ -113,7 +121,21 @@ func (w *boxWorld) connect(n int, id string, clean bool) {
 		w.fail("no connack")
 		return
 	}
+	// a live peer with the same client id has been taken over: the broker closed it
+	for on, op := range w.peers {
+		if on != 99 && id != "" && op.id == id {
+			select {
+			case <-op.eof:
+			case <-time.After(10 * time.Second):
+				w.fail("old connection not closed by takeover")
+			}
+			delete(w.peers, on)
+		}
+	}
 	w.peers[n] = p
+	if will != nil {
+		w.c.Emit("box %d will %d %s", w.k, n, hx.MsgText(will))
+	}
 	w.c.Emit("box %d setup %d %s %s", w.k, n, hxs(id), hx.B01(clean))
 	w.c.Emit("boximpl %d connack:%s", w.k, hx.B01(pkt.(*packet.Connack).SessionPresent))
 }
@@ -194,27 +216,66 @@ func (w *boxWorld) disc(n int) {
 		w.fail("no close after DISCONNECT")
 		return
 	}
-	// Terminate runs in the broker's cleanup goroutine: wait until the backend has let go of the connection
+	if !w.waitGone(p) {
+		return
+	}
+	delete(w.peers, n)
+	w.c.Emit("box %d disc %d", w.k, n)
+}
+
+// waitGone: Terminate runs in the broker's cleanup goroutine; wait until the backend has let go of the connection
+func (w *boxWorld) waitGone(p *peer) bool {
 	deadline := time.Now().Add(10 * time.Second)
 	for {
 		st := w.be.VerifSnapshot()
 		gone := true
-		if _, ok := st.Active[p.id]; ok {
-			gone = false
+		for _, ts := range st.Temporary {
+			_ = ts
 		}
-		if s, ok := st.Stored[p.id]; ok && s.Active != nil {
+		if p.id != "" {
+			if _, ok := st.Active[p.id]; ok {
+				gone = false
+			}
+			if s, ok := st.Stored[p.id]; ok && s.Active != nil {
+				gone = false
+			}
+		} else if len(st.Temporary) > w.tempCount()-1 {
 			gone = false
 		}
 		if gone {
-			break
+			return true
 		}
 		if time.Now().After(deadline) {
 			w.fail("not terminated")
-			return
+			return false
 		}
 		time.Sleep(200 * time.Microsecond)
 	}
+}
+
+// tempCount: number of live peers that hold a temporary session (clean or without id), including the marker publisher
+func (w *boxWorld) tempCount() int {
+	n := 0
+	for _, p := range w.peers {
+		if p.clean {
+			n++
+		}
+	}
+	return n
+}
+
+// kill closes the connection without DISCONNECT: the broker publishes the will, then terminates
+func (w *boxWorld) kill(n int) {
+	p := w.peers[n]
+	_ = p.conn.Close()
+	<-p.eof
+	if !w.waitGone(p) {
+		return
+	}
 	delete(w.peers, n)
+	if p.will != nil {
+		w.c.Emit("box %d pub %d %s", w.k, n, hx.MsgText(p.will))
+	}
 	w.c.Emit("box %d disc %d", w.k, n)
 }
 
@@ -272,7 +333,7 @@ func (w *boxWorld) drain(n int) {
 }
 
 func (w *boxWorld) drainAll() {
-	for n := 1; n <= 8 && !w.failed; n++ {
+	for n := 1; n <= 20 && !w.failed; n++ {
 		if _, ok := w.peers[n]; ok {
 			w.drain(n)
 		}
@@ -288,35 +349,50 @@ func boxScenario(c *hx.Ctx, length int) {
 	eng := broker.NewEngine(be)
 	w := &boxWorld{c: c, k: boxN, be: be, eng: eng, peers: map[int]*peer{}}
 	c.Emit("boxstart %d", w.k)
-	w.connect(99, "mk", true)
+	w.connect(99, "mk", true, nil)
 	ids := []string{"x", "y", "z", "", ""}
-	cleanOf := map[int]bool{}
-	idOf := map[int]string{}
 	pn := 0
-	newPeer := func(n int) {
-		if _, ok := idOf[n]; !ok {
-			idOf[n] = ids[(n-1)%len(ids)]
-			cleanOf[n] = idOf[n] == "" || r.Intn(3) == 0
+	base := func(n int) int { return n % 10 }
+	alt := func(n int) int {
+		if n < 10 {
+			return n + 10
 		}
-		w.connect(n, idOf[n], cleanOf[n])
+		return n - 10
+	}
+	// a new connection for slot base(n) under peer number n
+	newPeer := func(n int) {
+		id := ids[(base(n)-1)%len(ids)]
+		clean := id == "" || r.Intn(3) == 0
+		var will *packet.Message
+		if r.Intn(3) == 0 {
+			pn++
+			q := byte(r.Intn(3))
+			will = &packet.Message{Topic: nameU[r.Intn(len(nameU))], Payload: []byte(fmt.Sprintf("w%d-%d", pn, q)), QOS: packet.QOS(q), Retain: r.Intn(2) == 0}
+		}
+		w.connect(n, id, clean, will)
 		if !w.failed {
 			w.sub(n, []subT{{fmt.Sprintf("m/%d", n), 1}})
 		}
 	}
-	nPeers := 1 + r.Intn(4)
-	for n := 1; n <= nPeers && !w.failed; n++ {
-		newPeer(n)
-	}
-	for step := 0; step < length && !w.failed; step++ {
+	livePeers := func() []int {
 		var live []int
-		for n := 1; n <= nPeers; n++ {
-			if _, ok := w.peers[n]; ok {
+		for n := range w.peers {
+			if n != 99 {
 				live = append(live, n)
 			}
 		}
+		sort.Ints(live)
+		return live
+	}
+	nSlots := 1 + r.Intn(4)
+	for n := 1; n <= nSlots && !w.failed; n++ {
+		newPeer(n)
+	}
+	for step := 0; step < length && !w.failed; step++ {
+		live := livePeers()
 		x := r.Intn(100)
 		switch {
-		case x < 30 && len(live) > 0:
+		case x < 28 && len(live) > 0:
 			k := 1 + r.Intn(4)
 			var subs []subT
 			for i := 0; i < k; i++ {
@@ -324,13 +400,13 @@ func boxScenario(c *hx.Ctx, length int) {
 			}
 			w.sub(live[r.Intn(len(live))], subs)
 			w.drainAll()
-		case x < 40 && len(live) > 0:
+		case x < 38 && len(live) > 0:
 			w.unsub(live[r.Intn(len(live))], []string{filterU[r.Intn(len(filterU))], filterU[r.Intn(len(filterU))]})
-		case x < 80:
+		case x < 74:
 			pn++
 			q := byte(r.Intn(3))
 			m := packet.Message{Topic: nameU[r.Intn(len(nameU))], QOS: packet.QOS(q), Retain: r.Intn(3) == 0}
-			if r.Intn(8) != 0 || !m.Retain {
+			if r.Intn(4) != 0 || !m.Retain {
 				m.Payload = []byte(fmt.Sprintf("b%d-%d", pn, q))
 			} else {
 				m.QOS = 0 // an empty payload cannot carry the published QoS
@@ -342,16 +418,36 @@ func boxScenario(c *hx.Ctx, length int) {
 			w.pub(who, m)
 			// the QoS cap is applied when the broker dequeues, i.e. right away: drain before any subscription changes
 			w.drainAll()
-		case x < 90 && len(live) > 0:
+		case x < 82 && len(live) > 0: // clean disconnect, or connection loss (will)
 			n := live[r.Intn(len(live))]
 			w.drain(n)
-			if !w.failed {
-				w.disc(n)
+			if w.failed {
+				break
 			}
-		default:
-			for n := 1; n <= nPeers; n++ {
-				if _, ok := w.peers[n]; !ok {
-					newPeer(n)
+			if r.Intn(2) == 0 {
+				w.disc(n)
+			} else {
+				w.kill(n)
+			}
+			w.drainAll()
+		case x < 90 && len(live) > 0: // takeover: a second connection with the same client id
+			n := live[r.Intn(len(live))]
+			if w.peers[n].id == "" {
+				continue
+			}
+			w.drain(n)
+			if w.failed {
+				break
+			}
+			newPeer(alt(n))
+			w.c.Stat("box_takeovers", 1)
+			w.drainAll()
+		default: // reconnect a slot that has no connection
+			for sl := 1; sl <= nSlots; sl++ {
+				_, a := w.peers[sl]
+				_, b := w.peers[sl+10]
+				if !a && !b {
+					newPeer(sl)
 					w.drainAll()
 					break
 				}
